@@ -2,7 +2,7 @@
 import re
 
 from .. import gen, history, model
-from ..common import Snapshot, eqstar, plain, rng_for
+from ..common import Snapshot, eqstar, plain, rng_for, sighash
 from .c05 import env_of
 
 PLAN = {
@@ -20,7 +20,8 @@ RULE = ("schemas with mutable defaults on typed lists/dicts (scalars, dict items
         "load of the unchanged files; hand-made argparse namespaces (known options, options a dynamic or fixed section "
         "does not declare) go through cmdline_args_override; non-trivial = >= 3 "
         "operations applied with >= 1 in-place mutation or dynamic field; distinct = distinct (schema, history)")
-REQUIRED = ("typed_containers_assigned_between_equal_configurations", "setdefault_results_changed_in_place", "schemas_with_a_tuple_default_on_a_typed_list", "asdict_with_computed_fields", "schemas_with_encoded_values_in_default_items", "hand_written_documents_with_unknown_names", "inner_containers_changed_in_place", "asdict_results_changed_in_place", "failed_include_loads", "foreign_method_secrets_loaded", "schemas_with_environment_prefix", "resets_then_inplace_mutations", "cmdline_namespaces_applied", "same_document_loads", "cross_assignments", "serialisations_applied", "twin_before_checks", "twin_after_checks", "fingerprint_checks", "shared_item_checks", "ops_applied",
+REQUIRED = ("operations_through_a_configuration_older_than_its_schema_fields",
+            "typed_containers_assigned_between_equal_configurations", "setdefault_results_changed_in_place", "schemas_with_a_tuple_default_on_a_typed_list", "asdict_with_computed_fields", "schemas_with_encoded_values_in_default_items", "hand_written_documents_with_unknown_names", "inner_containers_changed_in_place", "asdict_results_changed_in_place", "failed_include_loads", "foreign_method_secrets_loaded", "schemas_with_environment_prefix", "resets_then_inplace_mutations", "cmdline_namespaces_applied", "same_document_loads", "cross_assignments", "serialisations_applied", "twin_before_checks", "twin_after_checks", "fingerprint_checks", "shared_item_checks", "ops_applied",
             "inplace_mutations", "dynamic_fields_added")
 ASSUMPTIONS = ["deep mutation inside an *untyped* default (ListField(default=[[1]]), Field(default=[...])) is out of "
                "scope: the property quantifies over mutable defaults on typed fields"]
@@ -315,6 +316,8 @@ def run(case, ctx, res):
         res.count("schemas_with_environment_prefix")
     if not _equal_items_stage(cc, res, len(case["ops"])):
         return
+    if not _grown_schema_stage(cc, res, rng_for("c13-grown", sighash(case["ops"]), len(case["schema"]["fields"]))):
+        return
     if case["schema"].get("tuple_default"):
         res.count("schemas_with_a_tuple_default_on_a_typed_list")
     if case["schema"].get("encoded_item_defaults"):
@@ -490,6 +493,118 @@ def _equal_items_stage(cc, res, seed):
         res.viol("M-twin", "equal-configurations:shared-container", "%s.ports = %s.ports (both configurations equal at that moment), then "
                  "%s.ports.append(8080): %s.ports is %r, its tags %r" % (dname, sname, dname, sname, list(src.ports), dict(src.tags)))
         return False
+    return True
+
+
+def _grown_schema_stage(cc, res, rng):
+    """A configuration built BEFORE its schema grew: typed list / dict fields with mutable declared defaults are added to
+    the schema (at the root or in a section) after configuration `old` exists.  Whatever the library answers when `old` is
+    asked for the new fields (refusing is fine), no read / in-place change / assignment / reset through `old` may change
+    the declared defaults, the schema, a configuration built before the operations or one built after them."""
+    I, S, L, D = cc.IntField, cc.StringField, cc.ListField, cc.DictField
+    schema = cc.Schema(dynamic=rng.random() < 0.3)
+    schema.name = S(default="svc")
+    schema.tags = L(S(), default=["base"])
+    schema.sec.level = I(default=1)
+    schema.sec.deep.flag = cc.BoolField(default=False)
+    old = schema()
+    where = rng.choice(["", "", "sec", "sec.deep"])
+    target = schema
+    for part in [x for x in where.split(".") if x]:
+        target = target._fields[part]
+    n1, n2 = rng.randrange(1, 9000), rng.randrange(1, 9000)
+    word = "w%d" % rng.randrange(99)
+    shapes = {
+        "ports": ("list", lambda: L(I(), default=[n1, n2]), n2 + 1),
+        "words": ("list", lambda: L(S(), default=[word]), "zz"),
+        "limits": ("dict", lambda: D(S(), I(), default={word: n1}), n2),
+        "labels": ("dict", lambda: D(S(), S(), default={"a": word, "b": "x"}), "zz"),
+        "grid": ("list-list", lambda: L(L(I()), default=[[n1], [n2, 3]]), 7),
+        "groups": ("dict-list", lambda: D(S(), L(I()), default={word: [n1], "m": [n2]}), 7),
+        "tables": ("dict-dict", lambda: D(S(), D(S(), I()), default={word: {"a": n1}}), 7),
+    }
+    names = rng.sample(sorted(shapes), rng.choice([1, 2, 2, 3]))
+    for name in names:
+        setattr(target, name, shapes[name][1]())
+    pre = (where + "." if where else "")
+    try:
+        fp0 = fingerprint(cc, schema)
+        before = schema()
+        b0 = Snapshot(before)
+    except Exception as exc:
+        res.viol("M-twin", "grown-schema:cannot-build", "fields %r added to schema section %r after a first configuration was built: a new "
+                 "configuration cannot be built / observed: %r" % (names, where, exc))
+        return False
+
+    def holder():
+        return old[where] if where else old
+
+    def mutate(name, act, x):
+        kind = shapes[name][0]
+        if act == "assign-first":
+            holder()[name] = [] if kind.startswith("list") else {}
+            return
+        if act == "reset-first":
+            cc.reset_value(old, pre + name)
+        if act == "iadd" and kind.startswith("list"):
+            cfg = holder()
+            val = getattr(cfg, name)
+            val += [[x]] if kind == "list-list" else [x]
+            setattr(cfg, name, val)
+            return
+        val = getattr(holder(), name) if act != "item-read" else holder()[name]
+        if act == "inner" and kind in ("list-list", "dict-list", "dict-dict"):
+            inner = val[0] if kind == "list-list" else next(iter(val.values()))
+            if kind == "dict-dict":
+                inner["zk"] = x
+            else:
+                inner.append(x)
+        elif kind == "list":
+            {"append": lambda: val.append(x), "extend": lambda: val.extend([x, x]), "insert": lambda: val.insert(0, x),
+             "setitem": lambda: val.__setitem__(0, x), "pop": lambda: val.pop(), "clear": lambda: val.clear()}.get(act, lambda: val.append(x))()
+        elif kind == "list-list":
+            {"append": lambda: val.append([x]), "extend": lambda: val.extend([[x], []]), "insert": lambda: val.insert(0, [x]),
+             "setitem": lambda: val.__setitem__(0, [x]), "pop": lambda: val.pop(), "clear": lambda: val.clear()}.get(act, lambda: val.append([x]))()
+        else:
+            v = x if kind == "dict" else ([x] if kind == "dict-list" else {"zk": x})
+            {"setitem": lambda: val.__setitem__("zk", v), "update": lambda: val.update({"zu": v}), "setdefault": lambda: val.setdefault("zs", v),
+             "pop": lambda: val.pop(next(iter(val))), "clear": lambda: val.clear(), "popitem": lambda: val.popitem()}.get(
+                 act, lambda: val.__setitem__("zk", v))()
+
+    acts = ["append", "extend", "insert", "setitem", "pop", "clear", "iadd", "update", "setdefault", "popitem", "inner", "inner", "item-read"]
+    plan = []
+    for _ in range(rng.randrange(3, 8)):
+        plan.append((rng.choice(names), rng.choice(acts)))
+    if rng.random() < 0.3:
+        # later on the application assigns / resets the new field through the old configuration and goes on changing it
+        plan.insert(rng.randrange(1, len(plan) + 1), (rng.choice(names), rng.choice(["assign-first", "reset-first"])))
+    for step, (name, act) in enumerate(plan):
+        res.count("operations_through_a_configuration_older_than_its_schema_fields")
+        try:
+            mutate(name, act, shapes[name][2])
+            res.count("operations_through_an_older_configuration_not_refused")
+        except Exception:
+            pass  # the library may refuse: the configuration holds no value for the field
+        what = "schema section %r got the fields %r after configuration `old` was built; step %d: %s on old.%s%s" % (
+            where, names, step, act, pre, name)
+        d = fp_diff(fp0, fingerprint(cc, schema))
+        if d:
+            res.viol("M-twin", "grown-schema:schema", "%s changed the schema: %s" % (what, d))
+            return False
+        d = b0.diff(Snapshot(before))
+        if d:
+            res.viol("M-twin", "grown-schema:twin-before", "%s changed a configuration built before it: %s" % (what, "; ".join(d[:3])))
+            return False
+        try:
+            later = Snapshot(schema())
+        except Exception as exc:
+            res.viol("M-twin", "grown-schema:later-configuration-cannot-be-built", "%s: a further configuration cannot be built: %r" % (what, exc))
+            return False
+        d = b0.diff(later, identity=False)
+        if d:
+            res.viol("M-twin", "grown-schema:twin-after", "%s: a configuration built afterwards differs from one built before: %s" % (
+                what, "; ".join(d[:3])))
+            return False
     return True
 
 
